@@ -202,7 +202,11 @@ class Run:
         for e in self.errors[:20]:
             print("CHECKER-ERROR %s" % e)
 
-        if self.errors:
+        # a violation whose failing input was replayed on the real code stands on its own evidence, whatever else went wrong in the checker;
+        # otherwise a checker error makes the whole run untrustworthy
+        if any(v["reproduced"] for v in self.violations):
+            code = 1
+        elif self.errors:
             code = 3
         elif self.violations:
             code = 1
